@@ -595,4 +595,179 @@ theorem store_order_exists (ops : List Op) :
   simp only [Store.store, arrange_self _ hinv.distinct]
   exact ⟨_, _, _, rfl⟩
 
+/-! ### Several `Store` calls to one writer -/
+
+theorem render_append (a b : List Entry) : render (a ++ b) = render a ++ render b := by
+  simp [render]
+
+/-- Every recording call's records fit the scanner buffer. -/
+def FitOps (ops : List Op) : Prop := ∀ op ∈ ops, ∀ u, op.update? = some u → ∀ r ∈ u.recs, r.fits = true
+
+/-- No recording call is handed a uuid that some line already written carries
+    (uuid.New() never repeats a value it produced before an earlier flush). -/
+def NoReuse (w : World) : List Op → Prop
+  | [] => True
+  | op :: ops =>
+    (∀ r used, (step w op).2 = .ref r used → ∀ ln ∈ w.out, ln.ref ≠ r) ∧ NoReuse (step w op).1 ops
+
+def nonEmpty (e : Entry) : Bool := !e.recs.isEmpty
+
+/-- `F` are the non-empty entries flushed so far, in the order written. -/
+structure Flushed (F : List Entry) (w : World) : Prop where
+  out : w.out = render F
+  ne : ∀ e ∈ F, e.recs ≠ []
+  distinct : DistinctRefs (F ++ w.store.entries)
+  nonNil : ∀ e ∈ F ++ w.store.entries, e.ref ≠ 0
+  fit : ∀ e ∈ w.store.entries, e.AllFit
+
+theorem mem_render_ref (F : List Entry) (e : Entry) (he : e ∈ F) (hne : e.recs ≠ []) :
+    ∃ ln ∈ render F, ln.ref = e.ref := by
+  obtain ⟨r, rs, hrs⟩ : ∃ r rs, e.recs = r :: rs := by
+    cases h : e.recs with
+    | nil => exact absurd h hne
+    | cons r rs => exact ⟨r, rs, rfl⟩
+  refine ⟨mkLine e r, ?_, rfl⟩
+  simp only [render, List.mem_flatMap, List.mem_map]
+  exact ⟨e, he, r, by simp [hrs], rfl⟩
+
+theorem flushed_record (F : List Entry) (w : World) (k : Kind) (u f : String) (recs : List Rec)
+    (cands : List Nat) (h : Flushed F w) (hfit : ∀ r ∈ recs, r.fits = true)
+    (hnr : ∀ r used, (step w (.record k u f recs cands)).2 = .ref r used → ∀ ln ∈ w.out, ln.ref ≠ r) :
+    Flushed F (step w (.record k u f recs cands)).1 ∧
+    ((F ++ (step w (.record k u f recs cands)).1.store.entries.filter nonEmpty).map Entry.update =
+      (F ++ w.store.entries.filter nonEmpty).map Entry.update ++
+        (returned w [.record k u f recs cands]).filter fun u => !u.recs.isEmpty) := by
+  simp only [step, returned, Op.update?] at hnr ⊢
+  rcases record_entries w.store k u f recs cands with ⟨r, used, he, hf, hr⟩ | he
+  · rw [he] at hnr ⊢
+    simp only at hnr ⊢
+    have hnotF : ∀ a ∈ F, a.ref ≠ r := by
+      intro a ha hab
+      obtain ⟨ln, hln, hlr⟩ := mem_render_ref F a ha (h.ne a ha)
+      exact hnr r used rfl ln (h.out ▸ hln) (hlr.trans hab)
+    have hnotE : ∀ a ∈ w.store.entries, a.ref ≠ r := by
+      intro a ha
+      have := List.any_eq_false.1 hf a ha
+      simpa using this
+    refine ⟨⟨h.out, h.ne, ?_, ?_, ?_⟩, ?_⟩
+    · rw [← List.append_assoc]
+      refine List.pairwise_append.2 ⟨h.distinct, List.pairwise_singleton _ _, ?_⟩
+      intro a ha b hb
+      simp only [List.mem_singleton] at hb
+      subst hb
+      rcases List.mem_append.1 ha with h1 | h1
+      · exact hnotF a h1
+      · exact hnotE a h1
+    · intro e hmem
+      rw [← List.append_assoc] at hmem
+      rcases List.mem_append.1 hmem with h1 | h1
+      · exact h.nonNil e h1
+      · simp only [List.mem_singleton] at h1; subst h1; exact hr
+    · intro e hmem
+      rcases List.mem_append.1 hmem with h1 | h1
+      · exact h.fit e h1
+      · simp only [List.mem_singleton] at h1; subst h1; exact hfit
+    · by_cases hre : recs = []
+      · simp [List.filter_append, nonEmpty, hre, List.filter]
+      · have hb : (!recs.isEmpty) = true := by simp [hre]
+        simp [List.filter_append, nonEmpty, hb, List.filter, Entry.update]
+  · rw [he] at hnr ⊢
+    simp only
+    exact ⟨h, by simp [List.filter]⟩
+
+theorem flushed_store (F : List Entry) (w : World) (order : List Nat) (h : Flushed F w) :
+    ∃ F', Flushed F' (step w (.store order)).1 ∧
+      ((F' ++ (step w (.store order)).1.store.entries.filter nonEmpty).map Entry.update).Perm
+        ((F ++ w.store.entries.filter nonEmpty).map Entry.update) := by
+  simp only [step, Store.store]
+  have hdE : DistinctRefs w.store.entries := (List.pairwise_append.1 h.distinct).2.1
+  cases ha : arrange w.store.entries order with
+  | none => exact ⟨F, h, List.Perm.refl _⟩
+  | some es =>
+    have hperm := arrange_perm order _ _ hdE ha
+    have hfit : ∀ e ∈ es, e.AllFit := fun e he => h.fit e (hperm.mem_iff.1 he)
+    simp only [storeOut_fits es hfit]
+    have hsub : (F ++ es.filter nonEmpty).Sublist (F ++ es) :=
+      List.Sublist.append (List.Sublist.refl F) List.filter_sublist
+    have hpermF : (F ++ es).Perm (F ++ w.store.entries) := hperm.append_left F
+    refine ⟨F ++ es.filter nonEmpty, ⟨?_, ?_, ?_, ?_, ?_⟩, ?_⟩
+    · show w.out ++ render es = render (F ++ es.filter nonEmpty)
+      rw [render_append, h.out]
+      have : render (es.filter nonEmpty) = render es := render_filter es
+      rw [this]
+    · intro e he
+      rcases List.mem_append.1 he with h1 | h1
+      · exact h.ne e h1
+      · have := (List.mem_filter.1 h1).2
+        simpa [nonEmpty] using this
+    · simp only [List.append_nil]
+      exact List.Pairwise.sublist hsub (distinct_perm hpermF h.distinct)
+    · intro e he
+      simp only [List.append_nil] at he
+      exact h.nonNil e (hpermF.mem_iff.1 (hsub.subset he))
+    · intro e he; simp at he
+    · simp only [List.filter_nil, List.append_nil]
+      exact ((hperm.filter nonEmpty).append_left F).map _
+
+/-- Invariant of arbitrary histories with any number of flushes. -/
+theorem flushed_run (ops : List Op) : ∀ (w : World) (F : List Entry), Flushed F w → FitOps ops →
+    NoReuse w ops →
+    ∃ F', Flushed F' (Sm.run step w ops) ∧
+      ((F' ++ (Sm.run step w ops).store.entries.filter nonEmpty).map Entry.update).Perm
+        ((F ++ w.store.entries.filter nonEmpty).map Entry.update ++
+          (returned w ops).filter fun u => !u.recs.isEmpty) := by
+  induction ops with
+  | nil => intro w F h _ _; exact ⟨F, h, by simp [returned]⟩
+  | cons op ops ih =>
+    intro w F h hfit hnr
+    have hfit' : FitOps ops := fun o ho => hfit o (by simp [ho])
+    obtain ⟨hnr1, hnr2⟩ := hnr
+    have key : ∃ F1, Flushed F1 (step w op).1 ∧
+        ((F1 ++ (step w op).1.store.entries.filter nonEmpty).map Entry.update).Perm
+          ((F ++ w.store.entries.filter nonEmpty).map Entry.update ++
+            (returned w [op]).filter fun u => !u.recs.isEmpty) := by
+      cases op with
+      | record k u f recs cands =>
+        obtain ⟨h1, h2⟩ := flushed_record F w k u f recs cands h
+          (hfit (.record k u f recs cands) (by simp) ⟨k, u, f, recs⟩ rfl) hnr1
+        exact ⟨F, h1, by rw [h2]⟩
+      | delta u f recs del cands =>
+        have hd : step w (.delta u f recs del cands) = step w (.record .vuln u f recs cands) := by
+          simp [step, Store.recordDelta]
+        have hr : returned w [.delta u f recs del cands] = returned w [.record .vuln u f recs cands] := by
+          simp [returned, hd, Op.update?]
+        rw [hd, hr]
+        obtain ⟨h1, h2⟩ := flushed_record F w .vuln u f recs cands h
+          (hfit (.delta u f recs del cands) (by simp) ⟨.vuln, u, f, recs⟩ rfl) (by rw [← hd]; exact hnr1)
+        exact ⟨F, h1, by rw [h2]⟩
+      | store order =>
+        obtain ⟨F', h1, h2⟩ := flushed_store F w order h
+        exact ⟨F', h1, by simpa [returned, Op.update?] using h2⟩
+    obtain ⟨F1, hF1, hp1⟩ := key
+    obtain ⟨F', hF', hp'⟩ := ih (step w op).1 F1 hF1 hfit' hnr2
+    refine ⟨F', hF', ?_⟩
+    simp only [Sm.run_cons]
+    refine hp'.trans ?_
+    have hret : (returned w (op :: ops)) = returned w [op] ++ returned (step w op).1 ops := by
+      simp only [returned]
+      split <;> simp
+    rw [hret, List.filter_append, ← List.append_assoc]
+    exact hp1.append_right _
+
+theorem flushed_init : Flushed [] World.init :=
+  ⟨rfl, by simp, List.Pairwise.nil, by simp [World.init], by simp [World.init]⟩
+
+/-- Loading everything written by any number of `Store` calls. -/
+theorem multi_flush_general (ops : List Op) (hfit : FitOps ops) (hnr : NoReuse World.init ops) :
+    ∃ L : List Update,
+      loadAll (Sm.run step World.init ops).out = (L.map (fun u => some u.loaded), .ok) ∧
+      (L ++ ((Sm.run step World.init ops).store.entries.filter nonEmpty).map Entry.update).Perm
+        ((returned World.init ops).filter fun u => !u.recs.isEmpty) := by
+  obtain ⟨F, hF, hp⟩ := flushed_run ops World.init [] flushed_init hfit hnr
+  refine ⟨F.map Entry.update, ?_, ?_⟩
+  · rw [hF.out, loadAll_render F hF.ne (List.pairwise_append.1 hF.distinct).1
+      (fun e he => hF.nonNil e (List.mem_append_left _ he))]
+    simp [List.map_map, Function.comp_def, Entry.update_loaded]
+  · simpa [World.init] using hp
+
 end ClairModel.JsonBlob
